@@ -51,6 +51,14 @@ def ev_call(self, e, st):
                 kw = yield_kwargs(self, e, st1)
                 yield from self.call_contract(st1, ckey, vals, kw, e)
             return
+        if name in models.CLASSES and "src" in models.CLASSES[name] and name not in self.c.get("no_inline", ()):
+            for st1, vals in self.ev_list(e.args, st):
+                if isinstance(vals, Raise):
+                    yield st1, vals
+                    continue
+                kw = yield_kwargs(self, e, st1)
+                yield from construct(self, st1, name, vals, kw, e)
+            return
         yield from builtin_call(self, name, e, st)
         return
     # ---------------- attribute calls
@@ -71,6 +79,17 @@ def ev_call(self, e, st):
             return
         if dotted == "math.isclose":
             yield from math_isclose(self, e, st)
+            return
+        if dotted == "re.search":
+            # re.search(pattern, text[, flags]) is not None  <=>  re_found(pattern, text)   (uninterpreted; trusted model)
+            for st1, vals in self.ev_list(list(e.args[:2]), st):
+                if isinstance(vals, Raise):
+                    yield st1, vals
+                    continue
+                found = z3.Function("re_found", S, S, B)(vals[0].t, vals[1].t)
+                m = fresh_const("match", I)
+                s2 = st1.assume(z3.And(m >= 0, (m != 0) == found))
+                yield s2, Val(m, ("ref", "opaque"))
             return
         for st1, base in self.ev(f.value, st):
             if isinstance(base, Raise):
@@ -103,6 +122,60 @@ def ev_call(self, e, st):
                 yield st2, vals
                 continue
             yield from call_value(self, st2, fv, vals, e)
+
+
+def construct(self, st, cls, args, kwargs, node):
+    """ClassName(args): allocate a fresh object and execute the class's __init__ (inlined; loop-free bodies only)."""
+    mod, cname = models.CLASSES[cls]["src"]
+    fs = source.find_function(f"{mod}:{cname}.__init__")
+    s = st.fork()
+    obj = self.alloc(s, cls)
+    for tag in models.CLASSES:
+        pass
+    yield from inline_function(self, s, fs, [obj] + list(args), kwargs, node, result_override=obj)
+
+
+def inline_function(self, st, fs, args, kwargs, node, result_override=None):
+    """Execute a callee's body in place (no contract): only loop-free bodies of <= 15 statements."""
+    body = fs.node.body
+    if any(isinstance(x, (ast.For, ast.While)) for b in body for x in ast.walk(b)) or len(body) > 15:
+        raise Unsupported(f"callee {fs.key} is too large to inline and has no contract")
+    a = fs.node.args
+    names = [x.arg for x in a.args]
+    bound = {}
+    for nm, v in zip(names, args):
+        bound[nm] = v
+    for nm, v in kwargs.items():
+        bound[nm] = v
+    dnames = names[len(names) - len(a.defaults):]
+    for nm, d in zip(dnames, a.defaults):
+        if nm not in bound:
+            if isinstance(d, ast.Constant):
+                from .core import State as _S
+                bound[nm] = list(self.ev(d, _S()))[0][1]
+            elif isinstance(d, ast.Dict) and not d.keys:
+                # mutable default `{}`: one shared module-level object (that is what it is)
+                bound[nm] = Val(z3.Const(f"G_default_{fs.key.split(':')[1]}_{nm}".replace(".", "_"), I), ("ref", "dict_str_ref"))
+            else:
+                raise Unsupported(f"default of {nm} in inlined {fs.key}")
+    missing = [nm for nm in names if nm not in bound]
+    if missing:
+        raise Unsupported(f"unbound parameters {missing} in inlined call of {fs.key}")
+    saved = st.env
+    s = st.fork()
+    s.env = dict(bound)
+    saved_f, saved_c = self.f, None
+    for s1, flow in self.exec_block(body, s):
+        s2 = s1.fork()
+        s2.env = dict(saved)
+        if flow[0] == "raise":
+            yield s2, flow[1]
+        elif flow[0] == "return":
+            yield s2, (result_override if result_override is not None else flow[1])
+        elif flow[0] == "normal":
+            yield s2, (result_override if result_override is not None else Val(z3.IntVal(0), "none"))
+        else:
+            raise Unsupported("break/continue escaping an inlined body")
 
 
 def yield_kwargs(self, e, st):
@@ -451,6 +524,18 @@ def method_call(self, st, base, attr, args, node):
     line = node.lineno
     if base.ty == "bound":
         base, attr0 = base.py
+    if base.ty == "file":
+        if attr == "readlines":
+            # content of the file as a list of lines: uninterpreted function of the path (trusted model of open/readlines)
+            srt = z3.SeqSort(S)
+            fn = z3.Function("file_lines", base.t.sort(), srt)
+            yield st, Val(fn(base.t), ("seq", "str"))
+            return
+        if attr == "read":
+            fn = z3.Function("file_text", base.t.sort(), S)
+            yield st, Val(fn(base.t), "str")
+            return
+        raise Unsupported(f"file.{attr}")
     # ---- str methods
     if base.ty == "str":
         if attr == "startswith":
@@ -533,7 +618,15 @@ def method_call(self, st, base, attr, args, node):
         if not isinstance(tgt, ast.Name):
             raise Unsupported("append on non-name sequence")
         s = st.fork()
-        s.env[tgt.id] = Val(z3.Concat(base.t, z3.Unit(self.coerce(args[0], base.ty[1]).t)), base.ty)
+        x = self.coerce(args[0], base.ty[1]).t
+        new = z3.Concat(base.t, z3.Unit(x))
+        # sound facts about append, stated explicitly so that quantified invariants over indices instantiate
+        k = fresh_const("k", I)
+        n0 = z3.Length(base.t)
+        s.conds.append(z3.Length(new) == n0 + 1)
+        s.conds.append(new[n0] == x)
+        s.conds.append(z3.ForAll([k], z3.Implies(z3.And(k >= 0, k < n0), new[k] == base.t[k]), patterns=[new[k]]))
+        s.env[tgt.id] = Val(new, base.ty)
         yield s, Val(z3.IntVal(0), "none")
         return
     raise Unsupported(f"method {attr} on {base.ty}")
